@@ -433,3 +433,84 @@ def f7(ctx):
                 ctx.violate(key, p, 'unrecognised inner result')
         else:
             ctx.violate(key, p, 'poll result not examined')
+
+
+@rule('F8', ['C15', 'C16', 'C18'], 'future plumbing: FutureState::is_waiting/is_done compare with the right variant; new futures start in Zero, not stream; the stream marks its future as reusable and starts unterminated', needs_async=True)
+def f8(ctx):
+    for nm, var in (('is_waiting', 'Waiting'), ('is_done', 'Done')):
+        key = 'future::FutureState::' + nm
+        b = ctx.body(key)
+        if b is None:
+            ctx.violate(key, None, 'anchor missing', sig='anchor')
+            continue
+        ctx.instance(key)
+        for p, evs in all_paths(ctx, b):
+            if p.end != 'return':
+                continue
+            ctx.oblige(1, sample='%s -> %s' % (nm, fmt(p.ret)))
+            r = p.ret
+            ok = False
+            if r is not None and r[0] == 'call' and r[2] in ('std::cmp::PartialEq::eq',) and len(r[3]) == 2:
+                a, c = r[3]
+                for x, y in ((a, c), (c, a)):
+                    if x == ('param', 1) and y[0] in ('ref', 'rawptr') and len(y) > 2 and y[2] is not None and y[2][0] == 'agg' and y[2][2] == var:
+                        ok = True
+            if r is not None and r[0] == 'bin' and r[1] == 'Eq':
+                ok = contains(r, ('param', 1)) and any(isinstance(x, tuple) and x[0] == 'agg' and x[2] == var for x in (r[2], r[3]))
+            if not ok:
+                ctx.violate(key, p, 'FutureState::%s is not `*self == FutureState::%s`: %s' % (nm, var, fmt(r)))
+    key = "future::ReceiveFuture::<'a, T>::new_ref"
+    b = ctx.body(key)
+    if b is None:
+        ctx.violate(key, None, 'anchor missing', sig='anchor')
+    else:
+        ctx.instance(key)
+        for p, evs in all_paths(ctx, b):
+            if p.end != 'return':
+                continue
+            ctx.oblige(1, sample='new_ref -> %s' % fmt(p.ret))
+            r = p.ret
+            if not (r is not None and r[0] == 'agg' and r[1].endswith('ReceiveFuture')):
+                ctx.violate(key, p, 'new_ref does not build a ReceiveFuture')
+                continue
+            f = dict(zip(r[4], r[3]))
+            if not (f.get('state', ('x',))[0] == 'agg' and f['state'][2] == 'Zero'):
+                ctx.violate(key, p, 'a new receive future does not start in state Zero')
+            if not is_const(f.get('is_stream', ('x',)), 0):
+                ctx.violate(key, p, 'a plain receive future is created with is_stream=true (it would silently restart instead of panicking when polled after completion)')
+            s = f.get('sig')
+            if not (s is not None and s[0] == 'call' and s[2] == 'signal::Signal::new_async'):
+                ctx.violate(key, p, 'a new receive future does not start with a fresh async signal')
+            if f.get('internal') != ('param', 1):
+                ctx.violate(key, p, 'a new receive future is not bound to the given channel')
+    key = "future::ReceiveStream::<'a, T>::new_borrowed"
+    b = ctx.body(key)
+    if b is None:
+        ctx.violate(key, None, 'anchor missing', sig='anchor')
+    else:
+        ctx.instance(key)
+        for p, evs in all_paths(ctx, b):
+            if p.end != 'return':
+                continue
+            ctx.oblige(1, sample='new_borrowed -> %s' % fmt(p.ret)[:120])
+            r = p.ret
+            if not (r is not None and r[0] == 'agg' and r[1].endswith('ReceiveStream')):
+                ctx.violate(key, p, 'new_borrowed does not build a ReceiveStream')
+                continue
+            f = dict(zip(r[4], r[3]))
+            if not is_const(f.get('terminated', ('x',)), 0):
+                ctx.violate(key, p, 'a new stream starts terminated')
+            if f.get('receiver') != ('param', 1):
+                ctx.violate(key, p, 'the stream is not bound to the given receiver')
+            fut = f.get('future')
+            inner = fut[3][-1] if fut is not None and fut[0] == 'call' and fut[3] else None
+            ok = False
+            if inner is not None and inner[0] == 'upd':
+                for path_, val in inner[2]:
+                    if path_ == (('pfield', 'is_stream'),) and is_const(val, 1):
+                        ok = True
+                base = inner[1]
+                if not (base[0] == 'call' and base[2].endswith('ReceiveFuture::new_ref')):
+                    ok = False
+            if not ok:
+                ctx.violate(key, p, 'the stream\'s future is not a fresh receive future marked is_stream=true (the second item would panic "polled after result is already returned")')
